@@ -743,8 +743,8 @@ func TestVF_C04(t *testing.T) {
 		"All behind ServerAsClient + real ProxyStore (eager/lazy) + real querier (penalty/chain, response batch sizes); queried with dedup on and off, full range and a sub-range, one select function, every series read Next-only and Seek/Next mixed; " +
 		"oracle: dedup on -> exactly one series per logical label set without replica labels, and (identical replicas, penalty) exactly the logical samples; dedup off -> exactly one series per (logical series, replica) with that replica's samples; " +
 		"distinct = hash of scenario layout+query; non-trivial = >= 2 chunks reached the querier for some series (TSDB phase: >= 2 replicas or a series over 120 samples) and at least one series was returned")
-	n := r.N(220, 4000)     // scripted StoreServers: chunk-cut classes
-	nTSDB := r.N(200, 4000) // real TSDBStores (some replicas possibly scripted)
+	n := r.N(200, 4000)     // scripted StoreServers: chunk-cut classes
+	nTSDB := r.N(160, 4000) // real TSDBStores (some replicas possibly scripted)
 	nBig := r.N(1, 6)       // directed: one series larger than the 1 MiB TSDBStore frame limit (2 and 3 frames alternate)
 	r.Require(int64(n+nTSDB)*3, n+nTSDB*3/4)
 	r.Extra("phases", map[string]int{"scripted": n, "real_tsdb_store": nTSDB, "big_series_over_frame_limit": nBig})
